@@ -235,12 +235,54 @@ def corpus_worlds():
     return out
 
 
+def gen_world_t(rng, max_actions=2):
+    """pddlgen's gen_world, plus (in half of the worlds) a ternary predicate so that argument POSITIONS beyond the second matter"""
+    w = G.World()
+    G.gen_types(rng, w, max_types=4)
+    G.gen_vocab(rng, w)
+    if rng.random() < 0.5:
+        ts = w.all_types()
+        w.preds.append(("p9", [("?a%d" % k, rng.choice(ts)) for k in range(3)]))
+        w.features.add("ternary-predicate")
+    for i in range(rng.randint(1, max_actions)):
+        w.actions.append(G.gen_action(rng, w, i))
+    return w
+
+
 def generated_worlds(rng, tier):
     worlds = []
     for _ in range({"quick": 60, "thorough": 600}[tier]):
-        w = G.gen_world(rng, max_actions=2)
+        w = gen_world_t(rng, max_actions=2)
         worlds.append(build_world(rng, w, n_states=3, calls_per_action=5, perms=(0,)))
     return worlds
+
+
+def fixture_worlds(rng, tier, only=None):
+    """applicability on shipped domain/problem pairs: the initial state and perturbations of it"""
+    from .c20 import FIXTURES
+    pairs = FIXTURES if tier == "thorough" else rng.sample(FIXTURES, 6)
+    jobs = [{"op": "c20.fixture", "domain": d, "problem": p, "seed": rng.randrange(10 ** 6), "ncalls": 5 if tier == "thorough" else 3,
+             "nstates": 3 if tier == "thorough" else 2, "want": "app"} for d, p in pairs]
+    if only is not None:
+        pairs = [tuple(only["fixture"])]
+        jobs = [{"op": "c20.fixture", "domain": pairs[0][0], "problem": pairs[0][1], "seed": only["seed"], "calls": only["calls"],
+                 "nstates": only["nstates"], "want": "app"}]
+    worlds, results = [], []
+    for job, (d, p), r in zip(jobs, pairs, run_impl(jobs, nproc=min(8, len(jobs)))):
+        if "probes" not in r:
+            raise RuntimeError("fixture %s / %s is no longer readable by the implementation: %r" % (d, p, r.get("parse_raised")))
+        states = r["states"] if len(r["states"][0]["facts"]) <= 80 else r["states"][:1]
+        probes, answers = [], []
+        for q in r["probes"]:
+            for si, st in enumerate(states):
+                probes.append({"action": q["action"], "args": q["args"], "state": st, "nwhen": 0, "nuniv": 0,
+                               "fixture": {"fixture": [d, p], "seed": job["seed"], "nstates": job["nstates"], "state_index": si,
+                                           "calls": [{"action": q["action"], "args": q["args"]}]}})
+                answers.append({"app": q["apps"][si], "succ": {"raised": "not-observed"}})
+        worlds.append({"domain_text": r["domain_text"], "objects": r["objects"], "oof": False, "oof_kind": None,
+                       "probes": probes, "features": ["fixture:" + d], "fixture": [d, p]})
+        results.append({"nums": r["nums"], "vocab": r["vocab"], "probes": answers})
+    return worlds, results
 
 
 def connectives(text):
@@ -253,9 +295,15 @@ def run(args):
     standard_proof_part(rep, PROP)
     rng = random.Random(args.seed * 104729 + 2)
     cfg = run_impl([{"op": "core.numeric_config"}], nproc=1)[0]
+    fixture_only = None
     if args.replay:
         data = json.load(open(args.replay))
-        worlds, jobs, exhaustive = [data["input"]["world"]], [], {}
+        wd = data["input"]["world"]
+        if wd.get("fixture"):
+            fixture_only = dict(wd["probes"][0]["fixture"])
+            worlds, jobs, exhaustive = [], [], {}
+        else:
+            worlds, jobs, exhaustive = [wd], [], {}
     else:
         worlds = corpus_worlds() + generated_worlds(rng, args.tier)
         jobs, exhaustive = scope_jobs(rng, args.tier)
@@ -266,10 +314,18 @@ def run(args):
              "features": {}, "scope_probes": 0, "scope_true": 0, "scope_false": 0, "scope_raised": 0,
              "scope_formulas": {}, "scope_rows": 0, "scope_rows_capped": 0, "scope_by_size": {},
              "formulas_with_both_truth_values": 0, "formulas_total": 0}
-    # ---- worlds (every hash seed: the library's sets are hash-ordered)
-    for hs in hashseeds:
-        results = run_worlds(worlds, hashseed=hs)
-        for wd, res in zip(worlds, results):
+    # ---- worlds (every hash seed: the library's sets are hash-ordered), then the shipped fixtures (one hash seed)
+    streams = [(hs, worlds, run_worlds(worlds, hashseed=hs)) for hs in hashseeds]
+    if fixture_only is not None or not args.replay:
+        fw, fr = fixture_worlds(rng, args.tier, fixture_only)
+        if fixture_only is not None:       # the replayed probe is one state of one call
+            k = fixture_only["state_index"]
+            fw[0]["probes"], fr[0]["probes"] = fw[0]["probes"][k:k + 1], fr[0]["probes"][k:k + 1]
+        streams.append((hashseeds[0], fw, fr))
+        stats["fixtures"] = len(fw)
+    for si, (hs, ws, results) in enumerate(streams):
+        count = si == 0 or ws is not worlds
+        for wd, res in zip(ws, results):
             lit, u = world_literal(wd, res, cfg["epsilon"])
             lits.append("(AW %s)" % lit)
             units.append(u)
@@ -283,18 +339,20 @@ def run(args):
                     continue
                 pi = k[1]
                 pr, r = wd["probes"][pi], res["probes"][pi]
-                inp = {"world": {kk: wd[kk] for kk in ("domain_text", "objects", "oof", "oof_kind", "features")},
+                inp = {"world": {kk: (wd[kk] if not (kk == "domain_text" and wd.get("fixture")) else None)
+                                 for kk in ("domain_text", "objects", "oof", "oof_kind", "features")},
                        "hashseed": hs, "implementation": r.get("app", r)}
+                inp["world"]["fixture"] = wd.get("fixture")
                 inp["world"]["probes"] = [pr]
-                nontrivial = connectives(wd["domain_text"]) >= 2 and len(pr["state"]["facts"]) > 0
+                nontrivial = (connectives(wd["domain_text"]) >= 2 or bool(wd.get("fixture"))) and len(pr["state"]["facts"]) > 0
                 cases.append({"lit": "(AW %s)" % lit, "input": inp, "nontrivial": nontrivial,
                               "witness_of": wd.get("witness_of")})
-                if hs == hashseeds[0]:
+                if count:
                     stats["world_probes"] += 1
                     a = r.get("app", {})
                     stats["world_app_true" if a.get("value") is True else
                           "world_app_false" if a.get("value") is False else "world_app_raised"] += 1
-            if hs == hashseeds[0]:
+            if count:
                 stats["worlds"] += 1
                 for f in wd["features"]:
                     stats["features"][f] = stats["features"].get(f, 0) + 1
@@ -363,11 +421,13 @@ def run(args):
         "to the ground atoms of the mentioned predicates and to the mentioned fluents over the grid {0,1} (capped at 128 per call, "
         "32 in quick; capped rows are counted), all other atoms/fluents at a random base value.  Families: F2 (o1-t o2-u), F3const "
         "(+ constant k-u), F3obj (+ o3-t), F2clash (functions named q and z like the predicates).  worlds: generated typed domains "
-        "(pddlgen) x 3 random states x <=5 type-correct calls per action; corpus: witnesses of the C02 findings.  "
+        "(pddlgen) x 3 random states x <=5 type-correct calls per action; corpus: witnesses of the C02 findings; fixtures: shipped "
+        "domain/problem pairs under <repo>/tests (6 of 17 in quick, all in thorough), calls over the problem's objects (half of them applicable "
+        "in the initial state), evaluated in the initial state and in perturbed copies of it.  "
         "A probe is non-trivial when its formula has >= 2 connectives and (scope) the run contains both a true and a false "
         "instance of that formula / (worlds) the state has facts; distinct by input hash.")
     cov["samples"] = [m["formula"] for j in jobs[:2] for m in j["meta"][:2]] + \
-                     [c["input"]["world"]["domain_text"][:300] for c in mine[:1] if "world" in c["input"]]
+                     [(c["input"]["world"]["domain_text"] or "")[:300] for c in mine[:1] if "world" in c["input"]]
     rep.assumptions = ["fluent magnitudes below 1e4 (C12 covers the tolerance boundary and infinities)", "ASCII text",
                        "states define every fluent the action reads",
                        "functions of arity <= 1 (for arity >= 3 with repeated objects the library's name-keyed fluent keys collide: D07)"]
